@@ -41,6 +41,9 @@ func hasHiding(t *gen.Node) bool {
 
 func runC01(c *core.Ctx) {
 	g := gen.New(c.R)
+	if c.Case%50 == 0 {
+		opErrArrowProbeC01(c, g)
+	}
 	t := caseTree(c, g, 7)
 	coverTree(c, t)
 	if t.Depth() >= 3 || t.HasKind(gen.MultiKinds...) {
@@ -96,6 +99,32 @@ func runC01(c *core.Ctx) {
 					fmt.Sprintf("%s\nhop %d: received %d bytes, re-encoded %d bytes\nreceived: %s\nforwarded: %s", t, k, len(recv), len(wk), e1.String(), e2.String()))
 				return
 			}
+		}
+	}
+}
+
+// opErrArrowProbeC01: see opErrBothTrees (known finding): a library layer above such an
+// OpError computes its Error() with the spaced arrow; after a hop the OpError is an opaque
+// wrapper whose prefix was cut from the standard library's text.
+func opErrArrowProbeC01(c *core.Ctx, g *gen.Gen) {
+	for _, t := range opErrBothTrees(g) {
+		e, _, ok := safeBuild(c, t)
+		if !ok {
+			continue
+		}
+		if p := core.Try(func() {
+			s0 := obs.ShapeOf(e)
+			cur := e
+			for k := 1; k <= 2; k++ {
+				cur, _ = sim.Hop(cur)
+				c.Count("operrboth-hops", 1)
+				if d, _, a, b := obs.Diff4(s0, obs.ShapeOf(cur)); d != "" {
+					c.Violate("tree/"+arrowClass(a, b), "visible tree or a node's Error() changed across a hop between knowing processes", fmt.Sprintf("%s\nhop %d: %s", t, k, d))
+					break
+				}
+			}
+		}); p != nil {
+			c.Violate("panic/operrboth", "hop panicked", fmt.Sprintf("%s\n%v", t, p))
 		}
 	}
 }
